@@ -490,4 +490,245 @@ theorem fold_eq_spec (data : Bytes) :
     crcFinal (data.foldl byteStep Gen.CpuPaths.crcInitState) = Spec.Crc32c.crc32c data := by
   rw [crcFinal, ← final_encoding, polyOfState_fold, init_poly, spec_eq_feed]
 
+/-! ## SSE2 lane identities and the message schedule of `SHA256_Transform_sse2` -/
+
+theorem lane64_17 (x : UInt32) :
+    ((x.toUInt64 <<< 32 ||| x.toUInt64) >>> 17).toUInt32 = (x >>> 17) ||| (x <<< 15) := by
+  apply UInt32.eq_of_toBitVec_eq
+  simp
+  ext i hi
+  simp [BitVec.getElem_or, BitVec.getElem_shiftLeft, BitVec.getElem_ushiftRight, BitVec.getLsbD_setWidth]
+  by_cases h : i < 15
+  · have h1 : 17 + i < 32 := by omega
+    have h2 : 17 + i < 64 := by omega
+    simp [h, h1, h2]
+  · have h1 : ¬ 17 + i < 32 := by omega
+    have h2 : 17 + i < 64 := by omega
+    have e : 17 + i - 32 = i - 15 := by omega
+    have h4 : x.toBitVec.getLsbD (17 + i) = false := BitVec.getLsbD_of_ge _ _ (by omega)
+    have h5 : i - 15 < 32 := by omega
+    simp [h, h1, h2, e, h4, BitVec.getLsbD_eq_getElem h5]
+    intro _; omega
+
+/-- `PSRLQ` by 17 on a 64-bit lane holding the same word twice leaves `ROTR^17` in the low half -/
+theorem rot17 (x : UInt32) : (srli64Lane x x 17).1 = Sha256.rotr x 17 := by
+  have e : Sha256.rotr x 17 = (x >>> 17) ||| (x <<< 15) := rfl
+  rw [e, ← lane64_17]
+  rfl
+
+theorem lane64_19 (x : UInt32) :
+    ((x.toUInt64 <<< 32 ||| x.toUInt64) >>> 19).toUInt32 = (x >>> 19) ||| (x <<< 13) := by
+  apply UInt32.eq_of_toBitVec_eq
+  simp
+  ext i hi
+  simp [BitVec.getElem_or, BitVec.getElem_shiftLeft, BitVec.getElem_ushiftRight, BitVec.getLsbD_setWidth]
+  by_cases h : i < 13
+  · have h1 : 19 + i < 32 := by omega
+    have h2 : 19 + i < 64 := by omega
+    simp [h, h1, h2]
+  · have h1 : ¬ 19 + i < 32 := by omega
+    have h2 : 19 + i < 64 := by omega
+    have e : 19 + i - 32 = i - 13 := by omega
+    have h4 : x.toBitVec.getLsbD (19 + i) = false := BitVec.getLsbD_of_ge _ _ (by omega)
+    have h5 : i - 13 < 32 := by omega
+    simp [h, h1, h2, e, h4, BitVec.getLsbD_eq_getElem h5]
+    intro _; omega
+
+/-- `PSRLQ` by 19 on a 64-bit lane holding the same word twice leaves `ROTR^19` in the low half -/
+theorem rot19 (x : UInt32) : (srli64Lane x x 19).1 = Sha256.rotr x 19 := by
+  have e : Sha256.rotr x 19 = (x >>> 19) ||| (x <<< 13) := rfl
+  rw [e, ← lane64_19]
+  rfl
+
+@[simp] theorem get0 (a : V4) : a.get 0 = a.x0 := rfl
+@[simp] theorem get1 (a : V4) : a.get 1 = a.x1 := rfl
+@[simp] theorem get2 (a : V4) : a.get 2 = a.x2 := rfl
+@[simp] theorem get3 (a : V4) : a.get 3 = a.x3 := rfl
+
+theorem s1_lane (x : UInt32) :
+    ((srli64Lane x x 17).1 ^^^ (srli64Lane x x 19).1) ^^^ shr32 x 10 = Sha256.smallSigma1 x := by
+  rw [rot17, rot19]; rfl
+
+/-- `s1_128_low(a) = (σ₁(a₂), σ₁(a₃), 0, 0)` -/
+theorem s1_low_eq (a : V4) : s1_128_low a = ⟨Sha256.smallSigma1 a.x2, Sha256.smallSigma1 a.x3, 0, 0⟩ := by
+  simp only [s1_128_low, mm_shuffle_epi32, mm_xor_si128, mm_srli_epi64, mm_srli_epi32, mm_srli_si128_8,
+    V4.zip, V4.map, get0, get2, get3, s1_lane]
+
+/-- `s1_128_high(a) = (0, 0, σ₁(a₀), σ₁(a₁))` -/
+theorem s1_high_eq (a : V4) : s1_128_high a = ⟨0, 0, Sha256.smallSigma1 a.x0, Sha256.smallSigma1 a.x1⟩ := by
+  simp only [s1_128_high, mm_shuffle_epi32, mm_xor_si128, mm_srli_epi64, mm_srli_epi32, mm_slli_si128_8,
+    V4.zip, V4.map, get0, get1, get2, s1_lane]
+
+/-- `s0_128` is `σ₀` in every lane -/
+theorem s0_eq (a : V4) : s0_128 a = V4.map Sha256.smallSigma0 a := rfl
+
+theorem span_eq (a b : V4) : spanOneThree a b = ⟨a.x1, a.x2, a.x3, b.x0⟩ := rfl
+
+/-- `MSG4` lane by lane: with `X0 … X3 = W[j-16 … j-1]` the result is `W[j … j+3]` of FIPS 180-4
+    §6.2.2 (the last two lanes use the first two, which is what the "second half of s1" does) -/
+theorem msg4_lanes (X0 X1 X2 X3 : V4) :
+    msg4 X0 X1 X2 X3 =
+      let a := Sha256.smallSigma1 X3.x2 + X2.x1 + Sha256.smallSigma0 X0.x1 + X0.x0
+      let b := Sha256.smallSigma1 X3.x3 + X2.x2 + Sha256.smallSigma0 X0.x2 + X0.x1
+      ⟨a, b, Sha256.smallSigma1 a + X2.x3 + Sha256.smallSigma0 X0.x3 + X0.x2,
+        Sha256.smallSigma1 b + X3.x0 + Sha256.smallSigma0 X1.x0 + X0.x3⟩ := by
+  simp only [msg4, s1_low_eq, s1_high_eq, s0_eq, span_eq, mm_add_epi32, V4.zip, V4.map, UInt32.add_zero,
+    V4.mk.injEq]
+  refine ⟨?_, ?_, ?_, ?_⟩ <;> ac_rfl
+
+theorem extend_add (a b : Nat) (ws : List UInt32) :
+    Sha256.extend (a + b) ws = Sha256.extend b (Sha256.extend a ws) := by
+  induction a generalizing ws with
+  | zero => simp [Sha256.extend]
+  | succ a ih =>
+    rw [show a + 1 + b = (a + b) + 1 by omega]
+    simp only [Sha256.extend]
+    cases h : Sha256.nextW ws with
+    | some w => exact ih _
+    | none =>
+      cases b with
+      | zero => rfl
+      | succ b => simp [Sha256.extend, h]
+
+/-- four more schedule words from the sixteen newest = one `MSG4` -/
+theorem extend4 (X0 X1 X2 X3 : V4) (rest : List UInt32) :
+    Sha256.extend 4 (X3.x3 :: X3.x2 :: X3.x1 :: X3.x0 :: X2.x3 :: X2.x2 :: X2.x1 :: X2.x0 ::
+        X1.x3 :: X1.x2 :: X1.x1 :: X1.x0 :: X0.x3 :: X0.x2 :: X0.x1 :: X0.x0 :: rest) =
+      (msg4 X0 X1 X2 X3).x3 :: (msg4 X0 X1 X2 X3).x2 :: (msg4 X0 X1 X2 X3).x1 :: (msg4 X0 X1 X2 X3).x0 ::
+        (X3.x3 :: X3.x2 :: X3.x1 :: X3.x0 :: X2.x3 :: X2.x2 :: X2.x1 :: X2.x0 ::
+        X1.x3 :: X1.x2 :: X1.x1 :: X1.x0 :: X0.x3 :: X0.x2 :: X0.x1 :: X0.x0 :: rest) := by
+  rw [msg4_lanes]; rfl
+
+theorem lanes_rev (y : Y4) (rest : List UInt32) :
+    y.lanes.reverse ++ rest =
+      y.y3.x3 :: y.y3.x2 :: y.y3.x1 :: y.y3.x0 :: y.y2.x3 :: y.y2.x2 :: y.y2.x1 :: y.y2.x0 ::
+      y.y1.x3 :: y.y1.x2 :: y.y1.x1 :: y.y1.x0 :: y.y0.x3 :: y.y0.x2 :: y.y0.x1 :: y.y0.x0 :: rest := rfl
+
+/-- sixteen more schedule words = the four `MSG4` calls of one loop iteration -/
+theorem extend16 (y : Y4) (rest : List UInt32) :
+    Sha256.extend 16 (y.lanes.reverse ++ rest) = (msgStep y).lanes.reverse ++ (y.lanes.reverse ++ rest) := by
+  rw [show (16 : Nat) = 4 + 4 + 4 + 4 from rfl, extend_add, extend_add, extend_add, lanes_rev y rest, lanes_rev]
+  rw [extend4 y.y0 y.y1 y.y2 y.y3 rest]
+  rw [extend4 y.y1 y.y2 y.y3 (msg4 y.y0 y.y1 y.y2 y.y3) _]
+  rw [extend4 y.y2 y.y3 (msg4 y.y0 y.y1 y.y2 y.y3) (msg4 y.y1 y.y2 y.y3 (msg4 y.y0 y.y1 y.y2 y.y3)) _]
+  rw [extend4 y.y3 (msg4 y.y0 y.y1 y.y2 y.y3) (msg4 y.y1 y.y2 y.y3 (msg4 y.y0 y.y1 y.y2 y.y3))
+    (msg4 y.y2 y.y3 (msg4 y.y0 y.y1 y.y2 y.y3) (msg4 y.y1 y.y2 y.y3 (msg4 y.y0 y.y1 y.y2 y.y3))) _]
+  rfl
+
+/-- `mm_bswap_epi32(loadu(p))` holds the four big-endian words at `p` -/
+theorem loadBswap_eq (b0 b1 b2 b3 b4 b5 b6 b7 b8 b9 b10 b11 b12 b13 b14 b15 : UInt8) :
+    loadBswap [b0, b1, b2, b3, b4, b5, b6, b7, b8, b9, b10, b11, b12, b13, b14, b15] =
+      some ⟨be32 b0 b1 b2 b3, be32 b4 b5 b6 b7, be32 b8 b9 b10 b11, be32 b12 b13 b14 b15⟩ := by
+  simp [loadBswap, mm_or_bytes, mm_slli_epi16_8, mm_srli_epi16_8, mm_shufflelo_epi16, mm_shufflehi_epi16,
+    shuffleWords, lanesOfBytes, le32]
+
+theorem uncons {α : Type} {l : List α} {n : Nat} (h : l.length = n + 1) :
+    ∃ a t, l = a :: t ∧ t.length = n := by
+  cases l with
+  | nil => simp at h
+  | cons a t => exact ⟨a, t, rfl, by simpa using h⟩
+
+/-- **the array `W` left by `SHA256_Transform_sse2` is the FIPS 180-4 message schedule** -/
+theorem sse2W_eq (block : Bytes) (h : block.length = 64) :
+    sse2W block = some (Sha256.schedule block) := by
+  obtain ⟨b0, t0, rfl, h0⟩ := uncons h
+  obtain ⟨b1, t1, rfl, h1⟩ := uncons h0
+  obtain ⟨b2, t2, rfl, h2⟩ := uncons h1
+  obtain ⟨b3, t3, rfl, h3⟩ := uncons h2
+  obtain ⟨b4, t4, rfl, h4⟩ := uncons h3
+  obtain ⟨b5, t5, rfl, h5⟩ := uncons h4
+  obtain ⟨b6, t6, rfl, h6⟩ := uncons h5
+  obtain ⟨b7, t7, rfl, h7⟩ := uncons h6
+  obtain ⟨b8, t8, rfl, h8⟩ := uncons h7
+  obtain ⟨b9, t9, rfl, h9⟩ := uncons h8
+  obtain ⟨b10, t10, rfl, h10⟩ := uncons h9
+  obtain ⟨b11, t11, rfl, h11⟩ := uncons h10
+  obtain ⟨b12, t12, rfl, h12⟩ := uncons h11
+  obtain ⟨b13, t13, rfl, h13⟩ := uncons h12
+  obtain ⟨b14, t14, rfl, h14⟩ := uncons h13
+  obtain ⟨b15, t15, rfl, h15⟩ := uncons h14
+  obtain ⟨b16, t16, rfl, h16⟩ := uncons h15
+  obtain ⟨b17, t17, rfl, h17⟩ := uncons h16
+  obtain ⟨b18, t18, rfl, h18⟩ := uncons h17
+  obtain ⟨b19, t19, rfl, h19⟩ := uncons h18
+  obtain ⟨b20, t20, rfl, h20⟩ := uncons h19
+  obtain ⟨b21, t21, rfl, h21⟩ := uncons h20
+  obtain ⟨b22, t22, rfl, h22⟩ := uncons h21
+  obtain ⟨b23, t23, rfl, h23⟩ := uncons h22
+  obtain ⟨b24, t24, rfl, h24⟩ := uncons h23
+  obtain ⟨b25, t25, rfl, h25⟩ := uncons h24
+  obtain ⟨b26, t26, rfl, h26⟩ := uncons h25
+  obtain ⟨b27, t27, rfl, h27⟩ := uncons h26
+  obtain ⟨b28, t28, rfl, h28⟩ := uncons h27
+  obtain ⟨b29, t29, rfl, h29⟩ := uncons h28
+  obtain ⟨b30, t30, rfl, h30⟩ := uncons h29
+  obtain ⟨b31, t31, rfl, h31⟩ := uncons h30
+  obtain ⟨b32, t32, rfl, h32⟩ := uncons h31
+  obtain ⟨b33, t33, rfl, h33⟩ := uncons h32
+  obtain ⟨b34, t34, rfl, h34⟩ := uncons h33
+  obtain ⟨b35, t35, rfl, h35⟩ := uncons h34
+  obtain ⟨b36, t36, rfl, h36⟩ := uncons h35
+  obtain ⟨b37, t37, rfl, h37⟩ := uncons h36
+  obtain ⟨b38, t38, rfl, h38⟩ := uncons h37
+  obtain ⟨b39, t39, rfl, h39⟩ := uncons h38
+  obtain ⟨b40, t40, rfl, h40⟩ := uncons h39
+  obtain ⟨b41, t41, rfl, h41⟩ := uncons h40
+  obtain ⟨b42, t42, rfl, h42⟩ := uncons h41
+  obtain ⟨b43, t43, rfl, h43⟩ := uncons h42
+  obtain ⟨b44, t44, rfl, h44⟩ := uncons h43
+  obtain ⟨b45, t45, rfl, h45⟩ := uncons h44
+  obtain ⟨b46, t46, rfl, h46⟩ := uncons h45
+  obtain ⟨b47, t47, rfl, h47⟩ := uncons h46
+  obtain ⟨b48, t48, rfl, h48⟩ := uncons h47
+  obtain ⟨b49, t49, rfl, h49⟩ := uncons h48
+  obtain ⟨b50, t50, rfl, h50⟩ := uncons h49
+  obtain ⟨b51, t51, rfl, h51⟩ := uncons h50
+  obtain ⟨b52, t52, rfl, h52⟩ := uncons h51
+  obtain ⟨b53, t53, rfl, h53⟩ := uncons h52
+  obtain ⟨b54, t54, rfl, h54⟩ := uncons h53
+  obtain ⟨b55, t55, rfl, h55⟩ := uncons h54
+  obtain ⟨b56, t56, rfl, h56⟩ := uncons h55
+  obtain ⟨b57, t57, rfl, h57⟩ := uncons h56
+  obtain ⟨b58, t58, rfl, h58⟩ := uncons h57
+  obtain ⟨b59, t59, rfl, h59⟩ := uncons h58
+  obtain ⟨b60, t60, rfl, h60⟩ := uncons h59
+  obtain ⟨b61, t61, rfl, h61⟩ := uncons h60
+  obtain ⟨b62, t62, rfl, h62⟩ := uncons h61
+  obtain ⟨b63, t63, rfl, h63⟩ := uncons h62
+  have ht : t63 = [] := List.eq_nil_of_length_eq_zero h63
+  subst ht
+  have hl : loadBlock [b0, b1, b2, b3, b4, b5, b6, b7, b8, b9, b10, b11, b12, b13, b14, b15, b16, b17, b18, b19, b20, b21, b22, b23, b24, b25, b26, b27, b28, b29, b30, b31, b32, b33, b34, b35, b36, b37, b38, b39, b40, b41, b42, b43, b44, b45, b46, b47, b48, b49, b50, b51, b52, b53, b54, b55, b56, b57, b58, b59, b60, b61, b62, b63] = some ⟨
+      ⟨be32 b0 b1 b2 b3, be32 b4 b5 b6 b7, be32 b8 b9 b10 b11, be32 b12 b13 b14 b15⟩,
+      ⟨be32 b16 b17 b18 b19, be32 b20 b21 b22 b23, be32 b24 b25 b26 b27, be32 b28 b29 b30 b31⟩,
+      ⟨be32 b32 b33 b34 b35, be32 b36 b37 b38 b39, be32 b40 b41 b42 b43, be32 b44 b45 b46 b47⟩,
+      ⟨be32 b48 b49 b50 b51, be32 b52 b53 b54 b55, be32 b56 b57 b58 b59, be32 b60 b61 b62 b63⟩⟩ := by
+    simp only [loadBlock, List.length_cons, List.length_nil]
+    rw [if_neg (by decide)]
+    simp only [List.take_succ_cons, List.take_zero, List.drop_succ_cons, List.drop_zero, loadBswap_eq]
+    rfl
+  simp only [sse2W, hl, Option.map_some]
+  congr 1
+  generalize hy : (Y4.mk
+      ⟨be32 b0 b1 b2 b3, be32 b4 b5 b6 b7, be32 b8 b9 b10 b11, be32 b12 b13 b14 b15⟩
+      ⟨be32 b16 b17 b18 b19, be32 b20 b21 b22 b23, be32 b24 b25 b26 b27, be32 b28 b29 b30 b31⟩
+      ⟨be32 b32 b33 b34 b35, be32 b36 b37 b38 b39, be32 b40 b41 b42 b43, be32 b44 b45 b46 b47⟩
+      ⟨be32 b48 b49 b50 b51, be32 b52 b53 b54 b55, be32 b56 b57 b58 b59, be32 b60 b61 b62 b63⟩) = y
+  have hw : (wordsBE [b0, b1, b2, b3, b4, b5, b6, b7, b8, b9, b10, b11, b12, b13, b14, b15, b16, b17, b18, b19, b20, b21, b22, b23, b24, b25, b26, b27, b28, b29, b30, b31, b32, b33, b34, b35, b36, b37, b38, b39, b40, b41, b42, b43, b44, b45, b46, b47, b48, b49, b50, b51, b52, b53, b54, b55, b56, b57, b58, b59, b60, b61, b62, b63]).reverse = y.lanes.reverse ++ [] := by
+    subst hy; rfl
+  unfold Sha256.schedule
+  rw [hw, show (48 : Nat) = 16 + 16 + 16 from rfl, extend_add, extend_add, extend16, extend16, extend16]
+  simp [List.reverse_append]
+
+theorem transformSse2_eq (H : Sha256.Regs) (block : Bytes) (h : block.length = 64) :
+    transformSse2 H block = some (Sha256.compress H block) := by
+  simp [transformSse2, sse2W_eq block h, Sha256.compress]
+
+theorem absorbSse2_eq (H : Sha256.Regs) (blocks : List Bytes) (h : ∀ b ∈ blocks, b.length = 64) :
+    absorbSse2 H blocks = some (blocks.foldl Sha256.compress H) := by
+  induction blocks generalizing H with
+  | nil => rfl
+  | cons b rest ih =>
+    simp only [absorbSse2, transformSse2_eq H b (h b (by simp)), List.foldl_cons]
+    exact ih _ (fun b' hb' => h b' (by simp [hb']))
+
 end Percival.Proofs.CpuPaths
